@@ -11,6 +11,8 @@ TEXT = {
          'DESIGN.md section 3 C04', 'TLA+ spec Req.tla + TLC exhaustive + fault enumeration on the real code + TLC trace validation with exact virtual time'),
  'C05': ('TLC explores every interleaving of requests from 2 connections (routing headers of depth 1..3 over a small word alphabet, over-TTL and garbled ones), Recv / Send on 2 contexts by 2 threads, per-pipe queues of length 0..2, connection loss and close at every point on spec/RepLike.tla (REP and RESPONDENT variants) and checks ReplyRoute (every reply queued, in the sender\'s hand or transmitted sits on the connection its request arrived on, with exactly that routing header, produced by the context that took it), HoldsLastTaken, at-most-once answering and nothing-invented; the real REP and RESPONDENT sockets are driven in a synctest bubble with the harness as REQ / SURVEYOR peers and devices (chosen header depths and contents incl. equal headers on different connections); each recorded trace (pipe and exact header words of every transmitted reply, API results, snapshots of every context\'s backtrace bytes and pipe) must be a behaviour of RepLike.tla.',
          'DESIGN.md section 3 C05', 'TLA+ spec RepLike.tla + TLC exhaustive + TLC trace validation with state snapshots'),
+ 'C06': ('TLC explores all histories of subscribe / unsubscribe / publish / receive on 2 contexts over byte strings that include empty, equal and prefix-of-each-other topics on spec/Sub.tla (QueuedMatches: everything queued matches a current subscription, in particular after Unsubscribe; delivery is an order-preserving duplicate-free subsequence of what matched at arrival; contexts are independent; queues drop only their oldest message when full); the real SUB socket is driven in a synctest bubble with harness publishers sending arbitrary byte strings (non-UTF8, empty, colliding prefixes) and TLC recomputes the matching on the logged bytes: every Recv result must be the head of the specification\'s queue, absence of delivery is decided by quiescence, snapshots bind subscriptions and queue lengths; the application scribbles over every message and topic buffer it owns.',
+         'DESIGN.md section 3 C06', 'TLA+ spec Sub.tla (reference matcher) + TLC exhaustive + TLC trace validation'),
  'C09': ('The seven hop-count receive loops are transcribed statement by statement into spec/Hops.tla and TLC evaluates, for every TTL (quick: 8 values incl. 1, 8, 254, 255; thorough: all of 1..255), every position of the terminating word 0..TTL+2 and the interesting numbers of available words (resp. every hop byte), that the transcription delivers exactly when the hop count is within the limit (PAIR1: one more), moves exactly the routing header, and never delivers garbage; the same grid is then injected into the eight real receivers (REP, XREP, RESPONDENT, XRESPONDENT, PAIR1, XPAIR1, STAR, XSTAR) through the virtual transport and every observed outcome (delivered or not, header length handed up, hop byte written) must equal what the transcription computes; the TTL option must accept exactly 1..255 and default to 8.',
          'DESIGN.md section 3 C09', 'TLA+ transcription Hops.tla evaluated exhaustively by TLC + TLC-validated injection grid on the real receivers'),
  'C13': ('TLC explores every interleaving of addPipe / pipe.Close / remPipe / hooks / protocol verdicts / socket close of spec/Core.tla for 2-3 connections (exhaustive within the cfg constants) and checks the hook language, protocol-told-once-each and id-held-until-Detached-returned invariants; the real internal/core is then driven through scripted and seeded scenarios (hook-side closes in Attaching/Attached, protocol refusals, peer drops incl. during proto.AddPipe, listener and dialer sides, socket close) in a synctest bubble and every recorded trace (hook events with the id and the allocator state, what the protocol was told, snapshots of ids in use / pipes listed at each quiescence) must be a behaviour of Core.tla on which those invariants hold.',
@@ -19,6 +21,7 @@ TEXT = {
          'DESIGN.md section 3 C14', 'TLA+ spec Core.tla + TLC exhaustive + TLC trace validation with exact virtual timestamps'),
 }
 NOTES = {
+ 'C06': 'trusted: TLC, synctest, virtual transport/recorder, SUB snapshot accessor; the PUB side (every message to every connected subscriber, queue space permitting) is decided by the broadcast specification used for C08, see DESIGN.md',
  'C05': 'trusted: TLC, synctest, virtual transport/recorder, the REP/RESPONDENT snapshot accessors; raw XREP/XRESPONDENT routing and device chains are covered by the raw-socket checks, not here',
  'C09': 'trusted: TLC, the virtual transport; the transcription is bound to the code by the injection grid (a divergence of code and transcription is a rejected trace, a wrong transcription that matches wrong code is a false HopExact assumption in TLC); device chains end to end are exercised by the topology checks',
  'C03': 'trusted: TLC, synctest, virtual transport/recorder, the REQ snapshot accessor; bounds: 2 contexts, 2 threads, 2 pipes, 2-3 requests in the exhaustive runs; the conformance side is bounded by the scenarios replayed',
